@@ -4,7 +4,6 @@ import (
 	"context"
 	"fmt"
 	"math/rand"
-	"os"
 	"runtime"
 	"strings"
 	"sync/atomic"
@@ -678,7 +677,7 @@ func forcedTrial(r *vlib.Run, trial int, rng *rand.Rand) {
 	r.Count("forced_units_recovered_after_closed_report", st.recoveredByDrain)
 	r.Count("forced_order_pairs_judged", st.orderJudged)
 	if gotGates < wantGates {
-		r.Inconclusive("forced: a requested window was not reached (hook point not hit); judged as an ordinary trial" + os.Getenv("C11_DEBUG_X") + dbgScript(script))
+		r.Inconclusive("forced: a requested window was not reached (hook point not hit); judged as an ordinary trial")
 		return
 	}
 	if len(fs) == 0 && st.lowerJudged {
@@ -695,11 +694,4 @@ func forcedTrial(r *vlib.Run, trial int, rng *rand.Rand) {
 	if r.WantSample() && trial%101 == 0 {
 		r.Sample(map[string]interface{}{"mode": "forced", "trial": trial, "template": tmpl, "script": script, "gates_reached": gotGates, "deliveries": st.deliveries, "accepted": st.accepted, "refused": st.refused})
 	}
-}
-
-func dbgScript(s string) string {
-	if os.Getenv("C11_DEBUG") != "" {
-		return " :: " + s
-	}
-	return ""
 }
